@@ -1,32 +1,12 @@
-(* C11P.v — proofs for C11 (a deleted row stays deleted) over the model Sync.v. *)
+(* C11P.v — proofs for C11 (a deleted row stays deleted) over the model Sync.v (code after the fixes
+   ca69f52 / bb1bffb / ad91329). *)
 From DV Require Import Sync SyncObs SyncP Run_C11.
 From Coq Require Import Lia.
 Open Scope Z_scope.
 
-(* the invariant: no peer shows a row at or below (modification date) a deletion record it holds *)
-Definition inv_replica (r : replica) : Prop :=
-  forall n t, In n (nodes r) -> In t (tombs r) -> t_id t = n_id n -> t_mdate t < n_mdate n.
 Definition inv_sys (S : sys) : Prop := forall p, inv_replica (get p S).
 Definition inv_replica_b (r : replica) : bool := stays_deleted (tombs r) r.
 Definition inv_sys_b (S : sys) : bool := forallb inv_replica_b S.
-
-Lemma below_tomb_false : forall ts n, below_tomb ts n = false ->
-  forall t, In t ts -> t_id t = n_id n -> t_mdate t < n_mdate n.
-Proof.
-  intros ts n H t Hin Hid. unfold below_tomb in H.
-  assert (Hf : (N.eqb (t_id t) (n_id n) && (n_mdate n <=? t_mdate t))%bool = false).
-  { destruct (N.eqb (t_id t) (n_id n) && (n_mdate n <=? t_mdate t))%bool eqn:E; [|reflexivity].
-    assert (Ht : existsb (fun t0 => (N.eqb (t_id t0) (n_id n) && (n_mdate n <=? t_mdate t0))%bool) ts = true)
-      by (apply existsb_exists; exists t; split; assumption).
-    congruence. }
-  rewrite Hid, N.eqb_refl in Hf. cbn [andb] in Hf. apply Z.leb_gt in Hf. exact Hf.
-Qed.
-
-Lemma below_tomb_true : forall ts n t, In t ts -> t_id t = n_id n -> n_mdate n <= t_mdate t -> below_tomb ts n = true.
-Proof.
-  intros ts n t Hin Hid Hle. unfold below_tomb. apply existsb_exists. exists t. split; [exact Hin|].
-  rewrite Hid, N.eqb_refl. cbn [andb]. apply Z.leb_le. exact Hle.
-Qed.
 
 Lemma inv_replica_b_iff : forall r, inv_replica_b r = true <-> inv_replica r.
 Proof.
@@ -35,181 +15,14 @@ Proof.
     apply (below_tomb_false _ _ H t Ht Hid).
   - intros H n Hn. apply Bool.negb_true_iff.
     destruct (below_tomb (tombs r) n) eqn:E; [|reflexivity]. exfalso.
-    unfold below_tomb in E. apply existsb_exists in E. destruct E as [t [Ht Hc]].
-    apply Bool.andb_true_iff in Hc. destruct Hc as [Hid Hle]. apply N.eqb_eq in Hid. apply Z.leb_le in Hle.
-    specialize (H n t Hn Ht Hid). lia.
+    destruct (below_tomb_true _ _ E) as [t [Ht [Hid Hle]]]. specialize (H n t Hn Ht Hid). lia.
 Qed.
 
-(* ---------- pieces of a step ---------- *)
-Lemma in_tomb_put : forall l u t, In t (tomb_put l u) -> t = u \/ In t l.
-Proof.
-  intros l u t H. unfold tomb_put in H. destruct H as [H|H]; [left; auto|right].
-  apply filter_In in H. tauto.
-Qed.
-
-Lemma in_fold_put : forall f d n, In n (fold_left put_node f d) -> In n f \/ In n d.
-Proof.
-  induction f as [|a f IH]; intros d n H; cbn [fold_left] in H; [right; exact H|].
-  apply IH in H. destruct H as [H|H]; [left; right; exact H|].
-  unfold put_node in H. destruct H as [H|H]; [left; left; exact H|].
-  apply in_remove_node in H. right. tauto.
-Qed.
-
-Lemma inv_apply_tomb : forall r t, inv_replica r -> inv_replica (apply_tomb r t).
-Proof.
-  intros r t H n u Hn Hu Hid. unfold apply_tomb in *. cbn [nodes tombs] in *.
-  apply in_remove_node in Hn. destruct Hn as [Hn Hne].
-  apply in_tomb_put in Hu. destruct Hu as [->|Hu]; [congruence|].
-  apply (H n u Hn Hu Hid).
-Qed.
-
-Lemma inv_fold_apply_tomb : forall ts r, inv_replica r -> inv_replica (fold_left apply_tomb ts r).
-Proof.
-  induction ts as [|t ts IH]; intros r H; cbn [fold_left]; [exact H|]. apply IH. apply inv_apply_tomb. exact H.
-Qed.
-
-Definition day_resurrects (fixed : bool) (src dst : replica) (d : Z) : bool :=
-  ev_resurrect (snd (sync_day fixed src (dst, 0%N, no_events) d)).
-
-Lemma sync_day_shape : forall fixed src dst cnt ev d,
-  fst (fst (sync_day fixed src (dst, cnt, ev) d)) = fst (fst (sync_day fixed src (dst, 0%N, no_events) d)) /\
-  ev_resurrect (snd (sync_day fixed src (dst, cnt, ev) d)) = (ev_resurrect ev || day_resurrects fixed src dst d)%bool.
-Proof.
-  intros. unfold day_resurrects, sync_day. cbn [fst snd ev_or ev_resurrect no_events orb]. split; reflexivity.
-Qed.
-
-Lemma inv_sync_day : forall fixed src dst d, inv_replica dst -> day_resurrects fixed src dst d = false ->
-  inv_replica (fst (fst (sync_day fixed src (dst, 0%N, no_events) d))).
-Proof.
-  intros fixed src dst d H Hr. unfold day_resurrects in Hr. unfold sync_day in *.
-  cbn [fst snd ev_or ev_resurrect no_events orb] in *.
-  set (dst1 := fold_left apply_tomb (dedup_tombs (tombs_on_day d (tombs src))) dst) in *.
-  assert (H1 : inv_replica dst1) by (apply inv_fold_apply_tomb; exact H).
-  set (fetch := filter (fun o => (wanted (nodes dst1) o && (negb fixed || negb (below_tomb (tombs dst1) o)))%bool) (on_day d (nodes src))) in *.
-  intros n t Hn Ht Hid. cbn [nodes tombs] in *.
-  apply in_fold_put in Hn. destruct Hn as [Hn|Hn].
-  - assert (Hb : below_tomb (tombs dst1) n = false).
-    { destruct (below_tomb (tombs dst1) n) eqn:E; [|reflexivity].
-      assert (existsb (below_tomb (tombs dst1)) fetch = true) by (apply existsb_exists; exists n; split; assumption).
-      congruence. }
-    apply (below_tomb_false _ _ Hb t Ht Hid).
-  - apply (H1 n t Hn Ht Hid).
-Qed.
-
-(* with the tombstone lookup of the repair no day resurrects anything *)
-Lemma fixed_never_resurrects : forall src dst d, day_resurrects true src dst d = false.
-Proof.
-  intros src dst d. unfold day_resurrects, sync_day. cbn [fst snd ev_or ev_resurrect no_events orb negb].
-  set (dst1 := fold_left apply_tomb (dedup_tombs (tombs_on_day d (tombs src))) dst).
-  destruct (existsb (below_tomb (tombs dst1))
-              (filter (fun o => (wanted (nodes dst1) o && negb (below_tomb (tombs dst1) o))%bool) (on_day d (nodes src)))) eqn:E;
-    [|reflexivity].
-  apply existsb_exists in E. destruct E as [n [Hin Hb]]. apply filter_In in Hin. destruct Hin as [_ Hf].
-  rewrite Hb in Hf. rewrite Bool.andb_false_r in Hf. discriminate.
-Qed.
-
-Lemma fold_sync_resurrect_mono : forall fixed src days acc,
-  ev_resurrect (snd (fold_left (sync_day fixed src) days acc)) = false -> ev_resurrect (snd acc) = false.
-Proof.
-  induction days as [|d rest IH]; intros acc H; cbn [fold_left] in H; [exact H|].
-  apply IH in H. destruct acc as [[dst cnt] ev].
-  rewrite (proj2 (sync_day_shape fixed src dst cnt ev d)) in H. apply Bool.orb_false_iff in H. cbn [snd]. tauto.
-Qed.
-
-Lemma inv_fold_sync : forall fixed src days acc, inv_replica (fst (fst acc)) ->
-  ev_resurrect (snd (fold_left (sync_day fixed src) days acc)) = false ->
-  inv_replica (fst (fst (fold_left (sync_day fixed src) days acc))).
-Proof.
-  induction days as [|d rest IH]; intros acc H Hr; cbn [fold_left] in *; [exact H|].
-  apply IH; [|exact Hr].
-  pose proof (fold_sync_resurrect_mono _ _ _ _ Hr) as H0.
-  destruct acc as [[dst cnt] ev]. destruct (sync_day_shape fixed src dst cnt ev d) as [E1 E2].
-  rewrite E2 in H0. apply Bool.orb_false_iff in H0. destruct H0 as [_ H0].
-  rewrite E1. apply inv_sync_day; [exact H|exact H0].
-Qed.
-
-Lemma fold_sync_fixed_clean : forall src days acc, ev_resurrect (snd acc) = false ->
-  ev_resurrect (snd (fold_left (sync_day true src) days acc)) = false.
-Proof.
-  induction days as [|d rest IH]; intros acc H; cbn [fold_left]; [exact H|].
-  apply IH. destruct acc as [[dst cnt] ev]. rewrite (proj2 (sync_day_shape true src dst cnt ev d)).
-  cbn [snd] in H. rewrite H, fixed_never_resurrects. reflexivity.
-Qed.
-
-Lemma inv_sys_set : forall S p r, inv_sys S -> inv_replica r -> inv_sys (set p r S).
-Proof.
-  intros S p r H Hr q. rewrite get_set. destruct (N.eqb q p && Nat.ltb (N.to_nat p) (length S))%bool; [exact Hr|apply H].
-Qed.
-
-Lemma mentions_false : forall x r, mentions x r = false -> forall t, In t (tombs r) -> t_id t <> x.
-Proof.
-  intros x r H t Hin Hid. unfold mentions in H. apply Bool.orb_false_iff in H. destruct H as [_ H].
-  assert (existsb (fun t0 => N.eqb (t_id t0) x) (tombs r) = true)
-    by (apply existsb_exists; exists t; split; [exact Hin|apply N.eqb_eq; exact Hid]).
-  congruence.
-Qed.
-
-(* one step preserves the invariant unless it resurrects or leaves the envelope *)
-Lemma step_preserves : forall fixed S o, inv_sys S ->
-  ev_resurrect (snd (step fixed S o)) = false -> ev_guard (snd (step fixed S o)) = false ->
-  inv_sys (fst (fst (step fixed S o))).
-Proof.
-  intros fixed S o H Hr Hg. destruct o as [p x t sg|p x t sg|p x t|d s days]; cbn [step] in *.
-  - cbn [fst snd ev_guard] in *. apply inv_sys_set; [exact H|].
-    intros n u Hn Hu Hid. cbn [nodes tombs] in *. unfold put_node in Hn. destruct Hn as [<-|Hn].
-    + cbn [n_id] in Hid. exfalso. apply (mentions_false _ _ Hg u Hu Hid).
-    + apply in_remove_node in Hn. apply (H p n u (proj1 Hn) Hu Hid).
-  - destruct (find_node x (nodes (get p S))) as [e|] eqn:F; cbn [fst snd ev_guard] in *; [|exact H].
-    apply inv_sys_set; [exact H|].
-    apply find_node_some in F. destruct F as [Fin Fid].
-    intros n u Hn Hu Hid. cbn [nodes tombs] in *. unfold put_node in Hn. destruct Hn as [<-|Hn].
-    + cbn [n_id n_mdate] in *. apply Z.ltb_ge in Hg.
-      assert (t_mdate u < n_mdate e) by (apply (H p e u Fin Hu); congruence). lia.
-    + apply in_remove_node in Hn. apply (H p n u (proj1 Hn) Hu Hid).
-  - destruct (find_node x (nodes (get p S))) as [e|] eqn:F; cbn [fst snd] in *; [|exact H].
-    apply inv_sys_set; [exact H|].
-    intros n u Hn Hu Hid. cbn [nodes tombs] in *.
-    apply in_remove_node in Hn. destruct Hn as [Hn Hne].
-    apply in_tomb_put in Hu. destruct Hu as [->|Hu]; [cbn [t_id] in Hid; congruence|].
-    apply (H p n u Hn Hu Hid).
-  - unfold pull_replica in *.
-    pose proof (inv_fold_sync fixed (get s S) days (get d S, 0%N, no_events) (H d)) as HI.
-    destruct (fold_left (sync_day fixed (get s S)) days (get d S, 0%N, no_events)) as [[r cnt] ev].
-    cbn [fst snd] in *. apply inv_sys_set; [exact H|]. apply HI. exact Hr.
-Qed.
-
-Lemma ev_or_false : forall a b, ev_resurrect (ev_or a b) = false -> ev_guard (ev_or a b) = false ->
-  (ev_resurrect a = false /\ ev_guard a = false) /\ (ev_resurrect b = false /\ ev_guard b = false).
-Proof.
-  intros a b H1 H2. cbn [ev_or ev_resurrect ev_guard] in *.
-  apply Bool.orb_false_iff in H1. apply Bool.orb_false_iff in H2. tauto.
-Qed.
-
-Lemma run_preserves : forall fixed ops S, inv_sys S ->
-  ev_resurrect (run_events fixed S ops) = false -> ev_guard (run_events fixed S ops) = false ->
-  Forall inv_sys (run_trace fixed S ops).
-Proof.
-  induction ops as [|o ops IH]; intros S H Hr Hg; cbn [run_trace run_events] in *; [constructor|].
-  destruct (step fixed S o) as [[S' flag] ev] eqn:E. cbn [fst] in *.
-  destruct (ev_or_false _ _ Hr Hg) as [[Hr1 Hg1] [Hr2 Hg2]].
-  assert (HS' : inv_sys S').
-  { pose proof (step_preserves fixed S o H) as P. rewrite E in P. cbn [fst snd] in P. apply P; assumption. }
-  constructor; [exact HS'|]. apply IH; assumption.
-Qed.
-
-Lemma inv_sys_b_of : forall S, inv_sys S -> inv_sys_b S = true.
+Lemma inv_sys_b_of_good : forall S, good_sys S -> inv_sys_b S = true.
 Proof.
   intros S H. unfold inv_sys_b. apply forallb_forall. intros r Hin.
   apply inv_replica_b_iff. destruct (In_nth S r empty_replica Hin) as [k [Hk Hn]].
-  specialize (H (N.of_nat k)). unfold get in H. rewrite Nat2N.id, Hn in H. exact H.
-Qed.
-
-Lemma init_inv : forall n, inv_sys (init_sys n).
-Proof.
-  intros n p k t Hn. unfold get, init_sys in Hn.
-  destruct (nth_in_or_default (N.to_nat p) (repeat empty_replica (N.to_nat n)) empty_replica) as [H|H].
-  - apply repeat_spec in H. rewrite H in Hn. inversion Hn.
-  - rewrite H in Hn. inversion Hn.
+  specialize (H (N.of_nat k)). unfold get in H. rewrite Nat2N.id, Hn in H. apply H.
 Qed.
 
 Lemma forall_forallb : forall {A} (P : A -> Prop) (f : A -> bool) l,
@@ -218,110 +31,55 @@ Proof.
   intros A P f l H HF. induction HF as [|a l Ha _ IH]; [reflexivity|]. cbn [forallb]. rewrite (H a Ha), IH. reflexivity.
 Qed.
 
-(* C11 outside the known classes, as the code is: if no pull of the history stores a row at or below
-   a deletion record the receiver holds (class 1 is exactly that event) and the local writes stay in
-   the envelope (fresh ids for creations, update clocks not behind the stored version), then after
-   every step no peer shows a row at or below a deletion record it holds *)
-Theorem outside_known : forall n hist final,
+(* C11 holds: any number of peers, any history of creations, updates, deletions and pulls in any order
+   with any selection of days — inside the envelope (creations use ids the peer does not know yet,
+   as the code's fresh uids do; no local update carries a clock behind the version it replaces) —:
+   after EVERY step no peer shows a row at or below (modification date) a deletion record it holds *)
+Theorem holds : forall n hist final,
   let c := C11Case n hist final in
-  ev_resurrect (run_events false (init_sys n) (c11_ops c)) = false ->
-  ev_guard (run_events false (init_sys n) (c11_ops c)) = false ->
-  forallb inv_sys_b (run_trace false (init_sys n) (c11_ops c)) = true.
+  c11_envelope c = true ->
+  forallb inv_sys_b (run_trace (init_sys n) (c11_ops c)) = true.
 Proof.
-  intros n hist final c Hr Hg.
-  apply (forall_forallb inv_sys); [apply inv_sys_b_of|].
-  apply run_preserves; [apply init_inv|exact Hr|exact Hg].
-Qed.
-
-Lemma known_nil_no_resurrect : forall c, known_C11 c = [] ->
-  ev_resurrect (run_events false (init_sys (c11_n c)) (c11_ops c)) = false.
-Proof.
-  intros c H. unfold known_C11 in H.
-  destruct (ev_resurrect (run_events false (init_sys (c11_n c)) (c11_ops c))); [|reflexivity].
-  cbn in H. discriminate.
-Qed.
-
-Theorem outside_known' : forall n hist final,
-  let c := C11Case n hist final in
-  known_C11 c = [] ->
-  ev_guard (run_events false (init_sys n) (c11_ops c)) = false ->
-  forallb inv_sys_b (run_trace false (init_sys n) (c11_ops c)) = true.
-Proof.
-  intros n hist final c Hk Hg. apply outside_known; [|exact Hg].
-  apply (known_nil_no_resurrect c Hk).
-Qed.
-
-(* with the tombstone lookup in filter_existing (requests/C11-fix-1.diff) the invariant holds for
-   every history inside the envelope, whatever the order of pulls *)
-Lemma run_fixed_clean : forall ops S, ev_resurrect (run_events true S ops) = false.
-Proof.
-  induction ops as [|o ops IH]; intros S; cbn [run_events]; [reflexivity|].
-  destruct (step true S o) as [[S' flag] ev] eqn:E. cbn [ev_or ev_resurrect]. rewrite IH, Bool.orb_false_r.
-  destruct o as [p x t sg|p x t sg|p x t|d s days]; cbn [step] in E.
-  - inversion E. reflexivity.
-  - destruct (find_node x (nodes (get p S))); inversion E; reflexivity.
-  - destruct (find_node x (nodes (get p S))); inversion E; reflexivity.
-  - unfold pull_replica in E.
-    pose proof (fold_sync_fixed_clean (get s S) days (get d S, 0%N, no_events) eq_refl) as HC.
-    destruct (fold_left (sync_day true (get s S)) days (get d S, 0%N, no_events)) as [[r cnt] ev0].
-    inversion E. subst. exact HC.
-Qed.
-
-Theorem with_lookup_holds : forall n ops,
-  ev_guard (run_events true (init_sys n) ops) = false ->
-  forallb inv_sys_b (run_trace true (init_sys n) ops) = true.
-Proof.
-  intros n ops Hg. apply (forall_forallb inv_sys); [apply inv_sys_b_of|].
-  apply run_preserves; [apply init_inv|apply run_fixed_clean|exact Hg].
+  intros n hist final c He. unfold c11_envelope in He. apply Bool.negb_true_iff in He. cbn [c c11_n c11_ops] in He.
+  apply (forall_forallb good_sys); [apply inv_sys_b_of_good|].
+  apply run_good_trace; [apply init_good|exact He].
 Qed.
 
 (* ---------- a stored deletion record is never lost (its key stays) ---------- *)
 Definition has_key (l : list tomb) (t : tomb) : Prop := exists u, In u l /\ same_key u t = true.
 
-Lemma same_key_refl : forall t, same_key t t = true.
-Proof. intros. unfold same_key. rewrite N.eqb_refl, Z.eqb_refl. reflexivity. Qed.
 Lemma same_key_trans : forall a b c, same_key a b = true -> same_key b c = true -> same_key a c = true.
 Proof.
   intros a b c H1 H2. unfold same_key in *. apply Bool.andb_true_iff in H1. apply Bool.andb_true_iff in H2.
   destruct H1 as [A1 A2]. destruct H2 as [B1 B2]. apply N.eqb_eq in A1. apply N.eqb_eq in B1.
   apply Z.eqb_eq in A2. apply Z.eqb_eq in B2. apply Bool.andb_true_iff. split; [apply N.eqb_eq|apply Z.eqb_eq]; congruence.
 Qed.
-Lemma same_key_sym : forall a b, same_key a b = true -> same_key b a = true.
-Proof.
-  intros a b H. unfold same_key in *. apply Bool.andb_true_iff in H. destruct H as [A1 A2].
-  apply N.eqb_eq in A1. apply Z.eqb_eq in A2. apply Bool.andb_true_iff. split; [apply N.eqb_eq|apply Z.eqb_eq]; congruence.
-Qed.
 
 Lemma has_key_tomb_put : forall l u t, has_key l t -> has_key (tomb_put l u) t.
 Proof.
-  intros l u t [w [Hin Hk]]. unfold tomb_put. destruct (same_key w u) eqn:E.
-  - exists u. split; [left; reflexivity|]. apply (same_key_trans u w t); [apply same_key_sym; exact E|exact Hk].
+  intros l u t [w [Hin Hk]]. unfold tomb_put. destruct (has_tomb l u); [exists w; auto|].
+  destruct (same_key w u) eqn:E.
+  - exists u. split; [left; reflexivity|]. apply (same_key_trans u w t); [rewrite same_key_sym'; exact E|exact Hk].
   - exists w. split; [|exact Hk]. right. apply filter_In. split; [exact Hin|]. rewrite E. reflexivity.
 Qed.
 
-Lemma has_key_fold_apply : forall ts r t, has_key (tombs r) t -> has_key (tombs (fold_left apply_tomb ts r)) t.
+Lemma has_key_fold_put : forall ts l t, has_key l t -> has_key (fold_left tomb_put ts l) t.
 Proof.
-  induction ts as [|u ts IH]; intros r t H; cbn [fold_left]; [exact H|].
-  apply IH. unfold apply_tomb. cbn [tombs]. apply has_key_tomb_put. exact H.
+  induction ts as [|u ts IH]; intros l t H; cbn [fold_left]; [exact H|]. apply IH. apply has_key_tomb_put. exact H.
 Qed.
 
-Lemma has_key_sync_day : forall fixed src dst cnt ev d t, has_key (tombs dst) t ->
-  has_key (tombs (fst (fst (sync_day fixed src (dst, cnt, ev) d)))) t.
-Proof.
-  intros. unfold sync_day. cbn [fst tombs]. apply has_key_fold_apply. assumption.
-Qed.
-
-Lemma has_key_fold_sync : forall fixed src days acc t, has_key (tombs (fst (fst acc))) t ->
-  has_key (tombs (fst (fst (fold_left (sync_day fixed src) days acc)))) t.
+Lemma has_key_fold_sync : forall src days acc t, has_key (tombs (fst acc)) t ->
+  has_key (tombs (fst (fold_left (sync_day src) days acc))) t.
 Proof.
   induction days as [|d rest IH]; intros acc t H; cbn [fold_left]; [exact H|].
-  apply IH. destruct acc as [[dst cnt] ev]. apply has_key_sync_day. exact H.
+  apply IH. destruct acc as [dst cnt]. unfold sync_day. cbn [fst tombs].
+  rewrite tombs_fold_apply. apply has_key_fold_put. exact H.
 Qed.
 
-Theorem tombstones_monotone : forall fixed S o p t,
-  has_key (tombs (get p S)) t -> has_key (tombs (get p (fst (fst (step fixed S o))))) t.
+Theorem tombstones_monotone : forall S o p t,
+  has_key (tombs (get p S)) t -> has_key (tombs (get p (fst (fst (step S o))))) t.
 Proof.
-  intros fixed S o p t H. destruct o as [q x tt sg|q x tt sg|q x tt|d s days]; cbn [step].
+  intros S o p t H. destruct o as [q x tt sg|q x tt sg|q x tt|d s days]; cbn [step].
   - cbn [fst]. rewrite get_set. destruct (N.eqb p q && Nat.ltb (N.to_nat q) (length S))%bool eqn:E; [|exact H].
     apply Bool.andb_true_iff in E. destruct E as [E _]. apply N.eqb_eq in E. subst q. exact H.
   - destruct (find_node x (nodes (get q S))); cbn [fst]; [|exact H].
@@ -332,49 +90,42 @@ Proof.
     apply Bool.andb_true_iff in E. destruct E as [E _]. apply N.eqb_eq in E. subst q.
     cbn [tombs]. apply has_key_tomb_put. exact H.
   - unfold pull_replica.
-    pose proof (has_key_fold_sync fixed (get s S) days (get d S, 0%N, no_events) t) as HK.
-    destruct (fold_left (sync_day fixed (get s S)) days (get d S, 0%N, no_events)) as [[r cnt] ev].
+    pose proof (has_key_fold_sync (get s S) days (get d S, 0%N) t) as HK.
+    destruct (fold_left (sync_day (get s S)) days (get d S, 0%N)) as [r cnt].
     cbn [fst] in *. rewrite get_set.
     destruct (N.eqb p d && Nat.ltb (N.to_nat d) (length S))%bool eqn:E; [|exact H].
     apply Bool.andb_true_iff in E. destruct E as [E _]. apply N.eqb_eq in E. subst d. apply HK. exact H.
 Qed.
 
-(* ---------- closed witnesses ---------- *)
-(* A creates x; B and C pull; A deletes x the next day; B<-A; B<-C; A<-B.
-   The days are those the real pulls exchanged. *)
+(* ---------- the former witnesses, now regression examples ---------- *)
+(* A creates x; B and C pull; A deletes x the next day; B<-A; B<-C; A<-B: before ca69f52 the row came
+   back on B and on A; now B and A keep it deleted (C has not yet seen the record) *)
 Definition witness : c11case :=
   C11Case 3%N
     [Create 0%N 1%N 1000 1%N; Pull 1%N 0%N [0]; Pull 2%N 0%N [0]; Delete 0%N 1%N 86401000;
      Pull 1%N 0%N [0; 86400000]; Pull 1%N 2%N [0]; Pull 0%N 1%N [0]] [].
-
-Lemma refuted : spec_C11 witness (run_C11 witness) = false /\ known_C11 witness = [1] /\
-  (* the row is visible again on B (peer 1) and on A (peer 0), which both hold the deletion record *)
-  map (fun r => (length (nodes r), length (tombs r))) (run_sys false (init_sys 3%N) (c11_ops witness)) = [(1, 1); (1, 1); (1, 0)]%nat.
+Lemma witness_holds : spec_C11 witness (run_C11 witness) = true /\ c11_envelope witness = true /\
+  map (fun r => (length (nodes r), length (tombs r))) (run_sys (init_sys 3%N) (c11_ops witness)) = [(0, 1); (0, 1); (1, 0)]%nat.
 Proof. vm_compute. repeat split; reflexivity. Qed.
 
-(* the same history with the tombstone lookup: B and A keep the row deleted *)
-Lemma witness_repaired :
-  map (fun r => (length (nodes r), length (tombs r))) (run_sys true (init_sys 3%N) (c11_ops witness)) = [(0, 1); (0, 1); (1, 0)]%nat /\
-  ev_guard (run_events true (init_sys 3%N) (c11_ops witness)) = false.
-Proof. vm_compute. split; reflexivity. Qed.
-
-(* class 3: the deletion record of peer 0 never reaches peer 1 *)
-Definition witness_collapse : c11case :=
+(* both peers delete the row on the same day: before bb1bffb the second peer never stored the first
+   peer's record; now both hold both records *)
+Definition witness_two_records : c11case :=
   C11Case 2%N
-    [Create 0%N 1%N 1000 1%N; Pull 1%N 0%N [0]; Delete 0%N 1%N 2000; Delete 1%N 1%N 3000; Pull 0%N 1%N [0]]
-    [Pull 1%N 0%N [0]; Pull 0%N 1%N []; Pull 1%N 0%N [0]; Pull 0%N 1%N []].
-Lemma refuted_collapse : known_C11 witness_collapse = [3] /\
-  map (fun r => length (tombs r)) (run_sys false (init_sys 2%N) (c11_ops witness_collapse)) = [2; 1]%nat.
+    [Create 0%N 1%N 1000 1%N; Pull 1%N 0%N [0]; Delete 0%N 1%N 2000; Delete 1%N 1%N 3000; Pull 0%N 1%N [0]; Pull 1%N 0%N [0]]
+    [Pull 0%N 1%N []; Pull 1%N 0%N []; Pull 0%N 1%N []; Pull 1%N 0%N []].
+Lemma two_records_hold : spec_C11 witness_two_records (run_C11 witness_two_records) = true /\
+  map (fun r => (length (nodes r), length (tombs r))) (run_sys (init_sys 2%N) (c11_ops witness_two_records)) = [(0, 2); (0, 2)]%nat.
 Proof. vm_compute. split; reflexivity. Qed.
 
-(* the hypotheses of [outside_known] are satisfiable with a deletion that does propagate *)
+(* the envelope is satisfiable with a deletion racing an update: the later version survives the
+   record that names the older one, everywhere *)
 Definition example_ok : c11case :=
   C11Case 3%N
     [Create 0%N 1%N 1000 1%N; Pull 1%N 0%N [0]; Pull 2%N 0%N [0]; Update 1%N 1%N 5000 2%N; Delete 0%N 1%N 86401000;
-     Pull 1%N 0%N [0; 86400000]; Pull 2%N 1%N [0; 86400000]] [].
+     Pull 1%N 0%N [0; 86400000]; Pull 2%N 1%N [0; 86400000]; Pull 0%N 1%N [0]] [].
 Lemma nonvacuous :
-  ev_resurrect (run_events false (init_sys 3%N) (c11_ops example_ok)) = false /\
-  ev_guard (run_events false (init_sys 3%N) (c11_ops example_ok)) = false /\
-  spec_C11 example_ok (run_C11 example_ok) = true /\
-  map (fun r => (length (nodes r), length (tombs r))) (run_sys false (init_sys 3%N) (c11_ops example_ok)) = [(0, 1); (0, 1); (0, 1)]%nat.
+  c11_envelope example_ok = true /\ spec_C11 example_ok (run_C11 example_ok) = true /\
+  map (fun r => (map n_mdate (nodes r), length (tombs r))) (run_sys (init_sys 3%N) (c11_ops example_ok)) =
+  [([5000], 1%nat); ([5000], 1%nat); ([5000], 1%nat)].
 Proof. vm_compute. repeat split; reflexivity. Qed.
